@@ -572,6 +572,11 @@ class Evaluator:
                     ok, r = self._obj_method(args[0], "__len__" if nm == "len" else "__bool__", [])
                     if ok:
                         return r
+                if nm == "sum" and args and isinstance(args[0], (list, tuple)) and (any(isinstance(x, Obj) for x in args[0]) or any(isinstance(x, Obj) for x in args[1:])):
+                    acc = args[1] if len(args) > 1 else 0
+                    for x in args[0]:
+                        acc = self._binop(ast.Add, acc, x)
+                    return acc
                 if any(isinstance(a, (Obj, ClassRef)) for a in args):
                     raise Undecided("%s() of an object" % nm)
                 try:
